@@ -20,7 +20,9 @@ META = {
             "sorted, duplicate free, independent of map iteration order and a function of the surviving writes only; a block-level "
             "revert after any disciplined span (nested block and contract snapshots) never panics and restores accounts and every "
             "staged storage and drops storages staged later; every non-panicking operation, Update and Commit included, keeps the "
-            "block-level invariant.  The statement with Update between "
+            "block-level invariant; AccountState / ContractState handles are copies until put (pointer identity modelled: every "
+            "setter, SetCode, Reset, CreateAccountState), StateDB.SetRoot/Revert, Clone, ChainStateDB.Apply and reopening at any "
+            "persisted root, StateDB.Snapshot/Rollback, HasKey, GetInitialData, SetRawKV/GetRawKV.  The statement with Update between "
             "snapshot and revert is refuted (kept as _refuted, reproduced on the code each run as a known finding).  The model is "
             "tied to /repo on every run: the real packages and the model are run on the same traces (exhaustive short sequences + "
             "random long ones) and every account, handle read, cached storage (revision, export(), index stacks, root) and the state "
